@@ -55,7 +55,7 @@ Toggles == <<"max_cholesky_size_0", "fast_root_off">>
 N == 4
 InstCls == <<"Dense", "Kron", "AddedDiag", "Toeplitz", "Chol", "KronAddedDiag", "Diag", "BlockDiag", "LRRAddedDiag", "Sum", "ConstMul", "BatchRepeat">>
 InstB == << <<>>, <<>>, <<2>>, <<>>, <<>>, <<>>, <<2>>, <<>>, <<>>, <<2>>, <<>>, <<2>> >>
-InstTerm == G_Term(InstCls[Inst], N, N, InstB[Inst], Seed + Inst * 7, IF InstCls[Inst] \in G_LeafClasses THEN 0 ELSE 1, 1)
+InstTerm == G_Term(InstCls[Inst], N, N, InstB[Inst], Inst * 7, IF InstCls[Inst] \in G_LeafClasses THEN 0 ELSE 1, 1)
 
 VARIABLES objs,    \* sequence of [den: tensor, parent: Nat, how: deriv name or "base", cache: set of [key, arg, of]]
           cur, toggles, hist, term
@@ -87,10 +87,13 @@ Query(qi) ==
 DerivedDen(d, A) ==
   LET n == T_Last(A.shape) b == T_Batch(A.shape) IN
   CASE d = "add_jitter" -> Al_AddDiagonal(A, T_Scalar(1))
-    [] d = "add_diagonal" -> Al_AddDiagonal(A, G_Pos(<<n>>, Seed + 3))
-    [] d = "add_low_rank" -> Al_AddLowRank(A, G_Small(<<n, 1>>, Seed + 5))
+    [] d = "add_diagonal" -> Al_AddDiagonal(A, G_Pos(<<n>>, 3))
+    [] d = "add_low_rank" -> Al_AddLowRank(A, G_Small(<<n, 1>>, 5))
     \* two rows are appended (the Cholesky-based transplant of the roots in cat_rows is only taken for >= 2 new rows)
-    [] d = "cat_rows" -> Al_CatRows(A, T_Fill(b \o <<2, n>>, Seed + 9, -1, 1), T_Add(T_Scale(T_EyeB(b, 2), 19), T_Ones(b \o <<2, 2>>)))
+    \* (for the Cholesky-operator instance the smallest eigenvalue of A is not bounded below by 1, so the cross block is zero there to
+    \*  keep the bordered matrix positive definite)
+    [] d = "cat_rows" -> Al_CatRows(A, IF InstCls[Inst] = "Chol" THEN T_Zeros(b \o <<2, n>>) ELSE T_Fill(b \o <<2, n>>, 9, -1, 1),
+                                   T_Add(T_Scale(T_EyeB(b, 2), 19), T_Ones(b \o <<2, 2>>)))
     [] d = "getitem" -> Ix_Result(A, <<Ix_Ell, Ix_Sl(Ix_None, n - 1, Ix_None), Ix_Sl(Ix_None, n - 1, Ix_None)>>)
     [] d = "transpose" -> T_Transpose(A)
     [] d = "mul" -> T_Scale(A, 2)
